@@ -523,6 +523,11 @@ def pairs_from_tokens(toks):
 @check("C16")
 def c16(ctx):
     props.check_props_file(ctx, "Props/C16.v")
+    # the builder calls themselves (JsonBuildObject, Prop, PropIf, Unset; the SELECT-level ApplySelectJson) against
+    # the constructor / API model that C16_api_call_is_map_step speaks about
+    live, tail, diffs = api_correspondence(ctx, 3000 if ctx.quick() else 30000)
+    ctx.cov["api_json_builder_steps"] = sum(1 for s_ in live if "JsonBuildObject" in s_["method"] or s_["method"] in ("ApplySelectJson", "SelectJson"))
+    api_composition_search(ctx, tail, diffs, "a JSON object builder call composes another object than the one the emitted text shows")
     maxlen = 3 if ctx.quick() else 5
     cases = special_mode_cases(ctx, "c16", ["-maxlen", str(maxlen), "-n", "600" if ctx.quick() else "30000"])
     reqs = []
